@@ -150,6 +150,7 @@ func checkC16(c *Ctx) {
 	checkImportsIndexed(c, "C16.R6.imports-indexed", pk)
 	checkTagPartsVerbatim(c, "C16.R4.json-tags", pk)
 	checkModelsRescanned(c, "C16.R7.models-rescanned", pk)
+	checkRetypeClearsRef(c, "C16.R4.retype-clears-ref", pk)
 }
 
 func checkCompositeKinds(c *Ctx, pk *packages.Package) {
@@ -238,6 +239,90 @@ func checkCompositeKinds(c *Ctx, pk *packages.Package) {
 	})
 	c.Check(implPos.IsValid() && unwrapPos.IsValid() && implPos < unwrapPos, rule, "codescan.schemaBuilder.buildFromType › TextMarshaler test precedes pointer unwrapping", c.posOf(pk, fd.Pos()), "types.Implements(tpe, TextMarshaler) first",
 		"a pointer is unwrapped before the encoding.TextMarshaler test: a field *T whose MarshalText has a pointer receiver is described as T's object while encoding/json writes a string")
+	// the TextMarshaler test applies to whatever type comes in — an unnamed struct has the methods its
+	// embedded fields promote — so it is a statement of the function body itself, in no switch arm
+	topLevel := false
+	for _, st := range fd.Body.List {
+		var exprs []ast.Node
+		switch x := st.(type) {
+		case *ast.AssignStmt:
+			for _, r := range x.Rhs {
+				exprs = append(exprs, r)
+			}
+		case *ast.IfStmt:
+			if x.Init != nil {
+				exprs = append(exprs, x.Init)
+			}
+			exprs = append(exprs, x.Cond)
+		}
+		for _, e := range exprs {
+			ast.Inspect(e, func(n ast.Node) bool {
+				if call, ok := n.(*ast.CallExpr); ok {
+					if fn := goan.Callee(info, call); fn != nil && goan.CalleeName(fn) == "go/types.Implements" && len(call.Args) == 2 {
+						if id, ok := ast.Unparen(call.Args[0]).(*ast.Ident); ok && fd.Type.Params.NumFields() > 0 && info.Uses[id] == info.Defs[fd.Type.Params.List[0].Names[0]] {
+							topLevel = true
+						}
+					}
+				}
+				return true
+			})
+		}
+	}
+	c.Check(topLevel, rule, "codescan.schemaBuilder.buildFromType › TextMarshaler test applies to every type", c.posOf(pk, fd.Pos()), "types.Implements(tpe, …) in a statement of the function body",
+		"the encoding.TextMarshaler test of the incoming type is nested in a branch: types that do not take that branch (a struct literal embedding time.Time has its promoted MarshalText) are described by their structure while encoding/json writes a string")
+	// the types recognised by (package path, name) are recognised before the named type is replaced by
+	// what it stands for (alias expansion, generic instantiation, the switch on the underlying type)
+	{
+		var firstUnderlying token.Pos
+		wellKnown := map[string]token.Pos{}
+		// the named-type arm that holds the tests
+		var arm *ast.CaseClause
+		ast.Inspect(fd.Body, func(n ast.Node) bool {
+			cc, ok := n.(*ast.CaseClause)
+			if !ok || len(cc.List) != 1 || goan.ExprString(cc.List[0]) != "*types.Named" {
+				return true
+			}
+			holds := false
+			ast.Inspect(cc, func(m ast.Node) bool {
+				if be, ok := m.(*ast.BinaryExpr); ok && be.Op == token.EQL {
+					if lit, ok := goan.StringVal(info, be.Y); ok && lit == "Time" && isNameCall(be.X) {
+						holds = true
+					}
+				}
+				return true
+			})
+			if holds && (arm == nil || (cc.Pos() <= arm.Pos() && arm.End() <= cc.End())) {
+				arm = cc // the outermost one
+			}
+			return true
+		})
+		if arm != nil {
+			ast.Inspect(arm, func(n ast.Node) bool {
+				switch x := n.(type) {
+				case *ast.CallExpr:
+					if se, ok := ast.Unparen(x.Fun).(*ast.SelectorExpr); ok && se.Sel.Name == "Underlying" {
+						if !firstUnderlying.IsValid() || x.Pos() < firstUnderlying {
+							firstUnderlying = x.Pos()
+						}
+					}
+				case *ast.BinaryExpr:
+					if x.Op == token.EQL {
+						if lit, ok := goan.StringVal(info, x.Y); ok && (lit == "Time" || lit == "RawMessage" || lit == "Number") && isNameCall(x.X) {
+							if old, seen := wellKnown[lit]; !seen || x.Pos() < old {
+								wellKnown[lit] = x.Pos()
+							}
+						}
+					}
+				}
+				return true
+			})
+		}
+		for _, name := range []string{"Time", "RawMessage", "Number"} {
+			pos, seen := wellKnown[name]
+			c.Check(seen && firstUnderlying.IsValid() && pos < firstUnderlying, rule, "codescan.schemaBuilder.buildFromType › "+name+" recognised before the underlying type is looked at", c.posOf(pk, fd.Pos()), "tested first in the named-type arm",
+				"the test for the well-known type "+name+" comes after the named type may have been replaced by its underlying type (alias-declared models, generic instantiations): there it is described by its structure (json.Number as a string, time.Time as an object)")
+		}
+	}
 	// maps: the key is a string by kind — defined string types (`type Locale string`) included
 	okMapKey := false
 	ast.Inspect(fd.Body, func(n ast.Node) bool {
@@ -816,4 +901,110 @@ func checkModelsRescanned(c *Ctx, rule string, pk *packages.Package) {
 		c.Check(len(early) == 0, rule, "codescan."+name+" › no model is passed over", c.posOf(pk, fd.Pos()), "no early success return",
 			fmt.Sprintf("%s returns successfully at %v before the model is built: a swagger:model whose name is already defined (e.g. in the --input document) is not scanned again and the stale definition is emitted", name, early))
 	}
+}
+
+
+// isNameCall: e is a call of a method named Name (obj.Name()).
+func isNameCall(e ast.Expr) bool {
+	call, ok := ast.Unparen(e).(*ast.CallExpr)
+	if !ok {
+		return false
+	}
+	se, ok := ast.Unparen(call.Fun).(*ast.SelectorExpr)
+	return ok && se.Sel.Name == "Name"
+}
+
+// checkRetypeClearsRef: a property schema that was built from the field's Go type and is then
+// given another type (`,string`, a strfmt annotation) must lose the `$ref` and items it was
+// built with: next to a $ref every sibling keyword is ignored, so the override would be void.
+func checkRetypeClearsRef(c *Ctx, rule string, pk *packages.Package) {
+	c.Rule(rule, "wherever a local spec.Schema is re-typed with Typed(…), the same block resets its Ref (`x.Ref = spec.Ref{}`)", 3)
+	info := pk.TypesInfo
+	for _, fd := range load.AllFuncs(pk) {
+		if fd.Body == nil {
+			continue
+		}
+		ord := 0
+		ast.Inspect(fd.Body, func(n ast.Node) bool {
+			blk, ok := n.(*ast.BlockStmt)
+			if !ok {
+				return true
+			}
+			for _, st := range blk.List {
+				es, ok := st.(*ast.ExprStmt)
+				if !ok {
+					continue
+				}
+				call, ok := ast.Unparen(es.X).(*ast.CallExpr)
+				if !ok {
+					continue
+				}
+				se, ok := ast.Unparen(call.Fun).(*ast.SelectorExpr)
+				if !ok || se.Sel.Name != "Typed" {
+					continue
+				}
+				id, ok := ast.Unparen(se.X).(*ast.Ident)
+				if !ok {
+					continue
+				}
+				v, _ := info.Uses[id].(*types.Var)
+				if v == nil || v.IsField() || goan.NamedPath(v.Type()) != "github.com/go-openapi/spec.Schema" {
+					continue
+				}
+				if isParamOf2(info, fd, v) {
+					continue // the caller's schema: what it held before is the caller's business
+				}
+				// only a schema that was built from a Go type before (its address handed to buildFromType)
+				built := false
+				ast.Inspect(fd.Body, func(m ast.Node) bool {
+					bc, ok := m.(*ast.CallExpr)
+					if !ok || bc.Pos() > call.Pos() {
+						return true
+					}
+					if fn := goan.Callee(info, bc); fn == nil || fn.Name() != "buildFromType" {
+						return true
+					}
+					ast.Inspect(bc, func(k ast.Node) bool {
+						if ue, ok := k.(*ast.UnaryExpr); ok && ue.Op == token.AND && identIs(info, ue.X, v) {
+							built = true
+						}
+						return true
+					})
+					return true
+				})
+				if !built {
+					continue
+				}
+				ord++
+				reset := false
+				for _, st2 := range blk.List {
+					as, ok := st2.(*ast.AssignStmt)
+					if !ok || len(as.Lhs) != 1 {
+						continue
+					}
+					ls, ok := ast.Unparen(as.Lhs[0]).(*ast.SelectorExpr)
+					if ok && ls.Sel.Name == "Ref" && identIs(info, ls.X, v) {
+						reset = true
+					}
+				}
+				c.Check(reset, rule, fmt.Sprintf("codescan.%s › re-typed schema #%d loses its $ref", load.FuncName(fd), ord), c.posOf(pk, call.Pos()), "Ref reset in the same block",
+					fmt.Sprintf("%s re-types %s with %s but keeps the $ref it was built with: for a field of a defined type the property is both `type: string` and a $ref, and the $ref wins — the schema describes the defined type while encoding/json writes the overriding form", load.FuncName(fd), id.Name, goan.ExprString(call)))
+			}
+			return true
+		})
+	}
+}
+
+func isParamOf2(info *types.Info, fd *ast.FuncDecl, v *types.Var) bool {
+	if fd.Type.Params == nil {
+		return false
+	}
+	for _, fl := range fd.Type.Params.List {
+		for _, n := range fl.Names {
+			if info.Defs[n] == v {
+				return true
+			}
+		}
+	}
+	return false
 }
